@@ -697,16 +697,26 @@ fn purl_case_oracles(ck: &mut Ck, a: &[&str]) {
     }
     match a[1] {
         "g" => {
-            c13(ck, a);
-            let m = make_g(a);
-            if a[0] == "B" {
-                if let Made::Purl(p) = &m {
-                    value_oracles::<KG>(ck, p, true, None);
+            // the value of the FIRST evaluation of the case in this process is the one examined (an outcome that depends on earlier calls must not be
+            // washed out by evaluating twice); a panic in this part is reported and must not keep the carrier comparison from running
+            let first = catch_unwind(AssertUnwindSafe(|| {
+                let mut ck1 = Ck(vec![]);
+                let m = make_g(a);
+                if a[0] == "B" {
+                    if let Made::Purl(p) = &m {
+                        value_oracles::<KG>(&mut ck1, p, true, None);
+                    }
+                    c09::<KG>(&mut ck1, a, &m, false);
+                } else {
+                    parse_oracles::<KG>(&mut ck1, a, &m);
                 }
-                c09::<KG>(ck, a, &m, false);
-            } else {
-                parse_oracles::<KG>(ck, a, &m);
+                ck1
+            }));
+            match first {
+                Ok(ck1) => ck.0.extend(ck1.0),
+                Err(_) => ck.fail("C06", "panic"),
             }
+            c13(ck, a);
         },
         "s" => {
             let m = make_s(a);
@@ -1555,7 +1565,9 @@ pub fn check(line: &str) -> String {
     let a: Vec<&str> = line.split(' ').collect();
     let mut ck = Ck(vec![]);
     // C06: no panic on the plain run of the case, except the documented ones (encoded as PANIC op outcomes / `!`)
-    let r = catch_unwind(AssertUnwindSafe(|| run(line)));
+    // PURL-producing cases are evaluated once, inside their oracles (first evaluation = the one examined); the others are run here first
+    let is_purl = matches!(a[0], "P" | "S" | "X" | "B");
+    let r = if is_purl { Ok(String::new()) } else { catch_unwind(AssertUnwindSafe(|| run(line))) };
     // documented panic #2 reached through the builder: with_typed_qualifier(Some(..)) of a user type whose KEY is not a valid key
     let documented = a[0] == "B" && a.len() > 4 && a[4].split(',').any(|o| o.starts_with("W:2:"));
     match &r {
